@@ -15,7 +15,7 @@ THEOREMS = [
     'Ndn.C08.merged_field_is_last_assignment', 'Ndn.C08.merged_plain', 'Ndn.C08.base_not_included_ignored',
     'Ndn.C08.inherit_without_include', 'Ndn.C08.derived_encodes_in_merged_order', 'Ndn.Gen.C08.shipped_merge_ok',
     # decoder output is well-formed (any byte string): decode . encode . decode = decode
-    'Ndn.C08.parse_wf', 'Ndn.C08.reencode_parses_back', 'Ndn.C08.reencode_succeeds',
+    'Ndn.C08.parse_wf', 'Ndn.C08.reencode_parses_back', 'Ndn.C08.reencode_succeeds', 'Ndn.C08.reencode_fails_only',
     'Ndn.Codec.parse_accept', 'Ndn.Codec.parse_size', 'Ndn.Codec.reencode_ok',
 ]
 PARTIAL = {}
